@@ -4,6 +4,7 @@
      sampler  [sps, k, x, noise, out, outnoise]         noise = <<>> when absent
      decide   [shape, sps, k, bits, vout, bias, samples] SAMPLER(DAC(bits), k) values
      gauss    [sps, T, m, idx, peakppm, fwhm, len, nbits, rxbits, bits]
+     eqwave   [ppt]                                      DAC(bits, BW=B) against LPF(DAC(bits), B), relative residual
      verdict  [fault, raised]                                                        *)
 EXTENDS DacSampler, Json, IOUtils
 Trace == ndJsonDeserialize(IOEnv.IN_FILE)
@@ -18,6 +19,7 @@ Clauses(e) ==
                            (IF ~GaussOK(e.sps, e.T, e.idx, e.peakppm, e.fwhm) THEN {"gaussian-pulse-bands"} ELSE {}) \cup
                            (IF e.rxbits # e.bits THEN {"gaussian-sampler-inverts-dac"} ELSE {})
     [] e.kind = "verdict" -> IF e.raised # Verdict(e.fault) THEN {"verdict"} ELSE {}
+    [] e.kind = "eqwave" -> IF e.ppt > 1000 THEN {"DAC(BW)=LPF(DAC)"} ELSE {}
 Bad == UNION {{<<i, c>> : c \in Clauses(Trace[i])} : i \in 1..Len(Trace)}
 ASSUME JsonSerialize(IOEnv.OUT_FILE, [n |-> Len(Trace), bad |-> Bad])
 =============================================================================
